@@ -1974,13 +1974,17 @@ class Module(ABC):
             channel_cols += list(channel.channel_states.keys())
             other_channels = [c for c in self.base.channels if c._name != name]
 
-            # Parameters and states (e.g. `vt`, `eK`) can be shared with other channels.
-            # Only clear them in compartments in which no other channel uses them.
-            for col in channel_cols:
+            # Parameters and states (e.g. `vt`, `eK`) and the current (e.g. `i_K`) can be
+            # shared with other channels. Only clear them in compartments in which no
+            # other channel uses them.
+            cleared_rows = {}
+            for col in channel_cols + [channel.current_name]:
                 users = [
                     c._name
                     for c in other_channels
-                    if col in c.channel_params or col in c.channel_states
+                    if col in c.channel_params
+                    or col in c.channel_states
+                    or col == c.current_name
                 ]
                 rows = self._nodes_in_view
                 if len(users) > 0:
@@ -1992,7 +1996,31 @@ class Module(ABC):
                         .to_numpy()
                     )
                     rows = rows[~still_used]
-                self.base.nodes.loc[rows, col] = float("nan")
+                cleared_rows[col] = rows
+
+            # Recordings, clamps and trainables of what is about to be cleared would refer
+            # to states or parameters that no longer exist. Refuse before modifying.
+            for col, rows in cleared_rows.items():
+                recs = self.base.recordings
+                referenced = not recs.empty and bool(
+                    ((recs["state"] == col) & recs["rec_index"].isin(rows)).any()
+                )
+                if col in self.base.externals:
+                    referenced |= bool(np.isin(self.base.external_inds[col], rows).any())
+                for params, inds in zip(
+                    self.base.trainable_params, self.base.indices_set_by_trainables
+                ):
+                    if col in params:
+                        referenced |= bool(np.isin(np.asarray(inds), rows).any())
+                if referenced:
+                    raise ValueError(
+                        f"`{col}` of channel {name} is recorded, clamped or trainable in "
+                        "compartments from which the channel is deleted. Delete these "
+                        "recordings, clamps or trainables first."
+                    )
+
+            for col in channel_cols:
+                self.base.nodes.loc[cleared_rows[col], col] = float("nan")
             self.base.nodes.loc[self._nodes_in_view, name] = False
 
             # only delete cols if no other comps in the module have the same channel
